@@ -584,11 +584,12 @@ spif_str_prepend_char(spif_str_t self, spif_char_t c)
     ASSERT_RVAL(!SPIF_STR_ISNULL(self), FALSE);
     self->len++;
     if (self->size <= self->len) {
-        self->size++;
+        self->size = self->len + 1;
         self->s = (spif_charptr_t) REALLOC(self->s, self->size);
     }
-    memmove(self->s + 1, self->s, self->len + 1);
+    memmove(self->s + 1, self->s, self->len - 1);
     self->s[0] = (spif_uchar_t) c;
+    self->s[self->len] = 0;
     return TRUE;
 }
 
